@@ -360,6 +360,30 @@ def run(ctx):
         if len(kept_wide) > 3000:
             del kept_wide[:1500]
     dist["W.wide_constants"] = nwide
+    # directed: an unsatisfiable group next to a constraint simplification must keep, simplified, then an independent group, simplified
+    # again (the composite forgot the variable-free False its child had left behind; found by this very stage under another seed)
+    SAA_ = claripy.annotation.SimplificationAvoidanceAnnotation
+    dx, dy = claripy.BVS("mx", 3, explicit_name=True), claripy.BVS("my", 3, explicit_name=True)
+    for first, second in (([claripy.ULT(dx, 0), claripy.UGE(dx, 1).annotate(SAA_())], [claripy.UGT(dy, 1)]),
+                          ([claripy.ULT(dx, 2), claripy.UGT(dx, 5).annotate(SAA_()), dx == 3], [(dy & 1) == 0]),
+                          ([dx != dx, claripy.ULT(dy, 4).annotate(SAA_())], [claripy.UGE(dx, 1)]),
+                          ([claripy.And(dx > 1, dx < 1), dy == 2], [claripy.ULT(dx, 7).annotate(SAA_())])):
+        for cls in (claripy.Solver, claripy.SolverCacheless, claripy.SolverComposite, claripy.SolverHybrid, claripy.SolverReplacement):
+            ctx.count()
+            s = cls()
+            try:
+                s.add(first); s.simplify(); s.add(second); s.simplify()
+                if cls is not claripy.SolverReplacement:
+                    s.simplify()
+            except claripy.errors.ClaripyError as ex:
+                ctx.violation("C09/%s.simplify/raises" % cls.__name__, "%s.simplify() raised %r on %s + %s" % (cls.__name__, ex, first, second), {"constraints": [repr(c) for c in first + second]})
+                continue
+            allc = first + second
+            before = {(a, b) for a in range(8) for b in range(8) if all(E.ev(E.from_ast(c), {"mx": a, "my": b})[1] for c in allc)}
+            after = {(a, b) for a in range(8) for b in range(8) if all(E.ev(E.from_ast(c), {"mx": a, "my": b})[1] for c in s.constraints)}
+            if before != after:
+                ctx.violation("C09/%s.simplify/model-set-changed" % cls.__name__, "%s: add %s, simplify(), add %s, simplify(): the constraint set %s has other models: lost %s gained %s" % (
+                    cls.__name__, first, second, s.constraints, sorted(before - after)[:4], sorted(after - before)[:4]), {"solver": cls.__name__, "constraints": [repr(c) for c in allc]})
     # Solver.simplify keeps the model set
     for it in range(ctx.pick(60, 800)):
         w = 3
